@@ -29,6 +29,25 @@ Theorem C13_exactly_one :
 Proof. exact exactly_one. Qed.
 Print Assumptions C13_exactly_one.
 
+(* Exactly one, with the premise stated as a transport contract instead of a property of the
+   protocol's final state.  grun computes, from the stimuli, the resolved targets and the calls
+   the protocol made (dial accepted, open_substream accepted, carrier handed to a request future),
+   what the environment still owes: an answer to every accepted dial (ConnectionEstablished or
+   DialFailure), an answer to every accepted open_substream (SubstreamOpened, SubstreamOpenFailure,
+   or the ConnectionClosed of that peer), and for every carrier handed over either a terminal event
+   of its request or the passing of the request timeout since the hand-over / since the request
+   frame went out.  Once all of that is discharged, every accepted send_request has produced
+   exactly one terminal event carrying its id (unless the user asked to cancel it). *)
+Theorem C13_exactly_one_contract :
+  forall (cf : cfg) (evs : list ev) (r : N),
+    0 < tmo cf ->
+    let res := run cf (init_pst, init_env) evs in
+    discharged (grun cf g0 (run_steps cf (init_pst, init_env) evs)) ->
+    In (OSent r) (snd res) ->
+    terms r (snd res) = 1%nat \/ In r (cancel_reqs evs).
+Proof. exact exactly_one_contract. Qed.
+Print Assumptions C13_exactly_one_contract.
+
 (* The same under the weaker-looking premise "nothing is owed" (pending_dials and every
    peers[..].active empty); quiescent implies settled (Proofs.quiescent_settled). *)
 Theorem C13_exactly_one_settled :
@@ -131,3 +150,12 @@ Example demo_partial_open :
     = [OFail 2 E_SUBSTREAM; OFail 0 E_CONN_CLOSED; OFail 1 E_CONN_CLOSED] /\
   quiescent (fst (fst res)).
 Proof. vm_compute. repeat split. Qed.
+
+(* Non-vacuity of the contract premise: after the demo dialogue the environment owes nothing;
+   after its first five stimuli it still owes two answers (or the timeout). *)
+Example demo_discharged :
+  discharged (grun (mkCfg None 4 16 5000 false) g0 (run_steps (mkCfg None 4 16 5000 false) (init_pst, init_env) demo)) /\
+  g_live (grun (mkCfg None 4 16 5000 false) g0
+               (run_steps (mkCfg None 4 16 5000 false) (init_pst, init_env) (firstn 5 demo)))
+    = [(0, 0, 5000); (1, 1, 5000)].
+Proof. split; [|vm_compute; reflexivity]. vm_compute. repeat split. intros x []. Qed.
